@@ -96,6 +96,9 @@ def run(ctx, w):
     ctx.floor("R4", 4, "cursor-column writers")
     c05.wrap_pending_rule(ctx, w, S, R)
     row_units(ctx, w, S, R, "R10")
+    c05.margin_rules(ctx, w, S, R)
+    from rules import c01 as _c01
+    _c01.loop_index(ctx, w, S, _c01.api_reach(w))
 
     # ---- R5 -----------------------------------------------------------------------------------------------
     ctx.rule("R5", "the dirty set is created and resized with self.rows only, and its resize sets the length unconditionally")
